@@ -1,4 +1,5 @@
 """C07 - ill-typed scripts never compile."""
+import re
 from .. import mir, hir
 from ..callgraph import CallGraph
 from ..facts import relfile
@@ -572,6 +573,39 @@ def rule_e7(F):
     return r
 
 
+def rule_e8(F):
+    """`!` is the type of expressions that do not produce a value. Such an expression may stand where any type is expected, but a
+    value may not stand where `!` is expected: the unification row for Never must accept (expected x, actual Never) only. unify is
+    called as unify(expected, actual) (rule E1's call table)."""
+    r = RuleResult("C07.E8", "the Never row of unification is directional: a value is not accepted where `!` is expected", floor=1)
+    ps = [p for p in F.paths() if p.endswith("TypeChecker::unify_inner")]
+    if not ps:
+        r.missing("TypeChecker::unify_inner")
+        return r
+    b = F.body(ps[0])
+    n = 0
+    for m in hir.nodes(b.hir["value"], "match"):
+        for arm in m["arms"]:
+            alts = hir.pat_alternatives(arm["pat"])
+            if not any("Type::Never" in a for a in alts):
+                continue
+            res = hir.result_desc(arm["body"])
+            for a in alts:
+                mm = re.match(r"^\((.*),(.*)\)$", a)
+                if not mm:
+                    continue
+                n += 1
+                expected_never = "Type::Never" in mm.group(1) and "Type::Never" not in mm.group(2)
+                accepts = not hir.diverges(arm["body"]) and "None" not in str(res)
+                r.inst("unify row %s" % a, {"row": a, "result": str(res), "accepts": accepts})
+                if expected_never and accepts:
+                    r.bad(b.path, "row %s" % a, relfile(b.file), arm["line"],
+                          "unification accepts any actual type where `!` is expected: `fn f() -> ! { 5 }` type-checks (and the lowering then panics with an internal compiler error instead of a report)")
+    if n == 0:
+        r.missing("Never row in unify_inner")
+    return r
+
+
 def rules(ctx):
     F = ctx["F"]
-    return [rule_e1(F), rule_e2(F), rule_e3(F), rule_e4(F), rule_e5(F), rule_e6(F), rule_e7(F)]
+    return [rule_e1(F), rule_e2(F), rule_e3(F), rule_e4(F), rule_e5(F), rule_e6(F), rule_e7(F), rule_e8(F)]
